@@ -3,16 +3,16 @@ CONSTANTS
   RecordHist = FALSE
   Users = {"u1", "u2"}
   Deputy = "dep"
-  PlainDenoms = {"aaa"}
-  Assets = {"htltone"}
-  Templates <- TemplatesOneBig
+  PlainDenoms = {}
+  Assets = {"htlttwo"}
+  Templates <- TemplatesTwo
   Locks = {1, 2}
-  Dts = {1}
-  Params0 <- ParamsOne
-  ParamAlts <- ParamAltsOne
+  Dts = {1, 2, 3}
+  Params0 <- ParamsTwo
+  ParamAlts <- ParamAltsTwo
   MaxH = 6
-  Claimants = {"u1", "dep"}
-  ClaimSecrets = {"s3", "s4", "s5", "s2"}
+  Claimants = {"u2"}
+  ClaimSecrets = {"s6", "s7", "s8"}
   InitBal = 1
   MaxUpdates = 2
 VIEW View
